@@ -5,7 +5,7 @@ HERE = os.path.dirname(os.path.dirname(os.path.abspath(__file__)))
 ALL = ["C%02d" % i for i in range(1, 21)]
 CHECKS = {
  "C11": dict(
-   technique="TLA+ spec Decl.tla: every legal declaration (type, selector, ordered attribute list, entity decoration, documentation placement, dummy/local) and every call shape with a cursor is an initial state; the spec computes the equivalent declaration record and the active parameter; rendered declarations are hovered and calls are probed with signatureHelp, the parsed answers are compared with the spec state",
+   technique="TLA+ spec Decl.tla: every legal declaration (type, selector, ordered attribute list, entity decoration, documentation placement, dummy/local) and every call shape with a cursor is an initial state; the spec computes the equivalent declaration record and the active parameter; rendered declarations are hovered and calls are probed with signatureHelp, the parsed answers are compared with the spec state (calls under three dummy namings, two of them with names in a proper-prefix / letter-case relation)",
    text="13k states: 8 types x 8 selectors x attribute lists of length <=2 from 15 attributes (incl. VALUE, VOLATILE, ASYNCHRONOUS) x 7 decorations (values with top-level commas, with commas and '!' inside literals) x 7 doc placements x dummy/local (Legal validated with gfortran on a sample), and call shapes of <=3 arguments over plain/nested/string/keyword/comparison ('p2 == 0') arguments; own documentation must appear on the entity and on no neighbour; procedure hover must list the dummy with the same declaration.",
    note="Trusted: TLC, the hover normaliser (case, blanks, attribute order), renderer. Positions inside nested parentheses and doc blocks separated by a blank line are don't-care.",
    design="4/C11"),
@@ -45,7 +45,7 @@ CHECKS = {
    note="Trusted: TLC, renderer with token coordinates. % chains / EXTENDS are decided on TypeRes.tla, diamond USE graphs on UseGraph.tla. Not modelled: INCLUDE in NameRes, generics, parent-component access. Three root-cause findings keyed on universe features are recorded as known findings.",
    design="4/C05"),
  "C06": dict(
-   technique="NameRes.tla universes with reference statements drawn from templates (adjacent occurrences 'n=n+1', occurrences in strings/comments, apostrophes inside double-quoted literals and quotes inside comments; access lists spelled in upper case); the spec state gives the entity of every identifier token; references / documentHighlight / rename from every occurrence are compared with the token set of the entity",
+   technique="NameRes.tla universes with reference statements drawn from templates (adjacent occurrences 'n=n+1', occurrences in strings/comments, apostrophes inside double-quoted literals and quotes inside comments; access lists spelled in upper case); the spec state gives the entity of every identifier token; references / documentHighlight / rename from every occurrence are compared with the token set of the entity; TypeRes.tla universes (EXTENDS chains of every depth, file spread and link order) with a same-spelled component of an unrelated type used on the same lines: references from every use of a component",
    text="For each entity: every same-spelled token bound to it is required from every invocation point, tokens bound to other entities and tokens in strings/comments are forbidden, rename edits must cover exactly the required ranges with the new text; alias uses through 'lx => x' are don't-care for references and forbidden for rename.",
    note="Trusted as C05. Rename is checked on ranges/text, not by re-indexing the renamed program.",
    design="4/C06"),
@@ -70,7 +70,7 @@ CHECKS = {
    note="Trusted: TLC, renderer, the add_scope/end_scope wrapper installed from outside. Statement-level and one-character-mutation coverage only; arbitrary byte strings are not enumerated.",
    design="4/C03"),
  "C04": dict(
-   technique="TLA+ spec FortranScopes.tla (block grammar as guarded actions; well-nestedness invariants model-checked); every complete program TLC enumerates/simulates is rendered with seeded spacing and its documentSymbol / workspace/symbol answers are compared with the spec's closed-scope set (variables are named after statement keywords and assigned at the start of statements; one program in five is tab-indented and sent as didOpen text; a catalogue module declares ~60 keyword-like names)",
+   technique="TLA+ spec FortranScopes.tla (block grammar as guarded actions; well-nestedness invariants model-checked); every complete program TLC enumerates/simulates is rendered with seeded spacing and its documentSymbol / workspace/symbol answers are compared with the spec's closed-scope set (variables are named after statement keywords and assigned at the start of statements; one program in five is tab-indented and sent as didOpen text; a catalogue module declares ~60 keyword-like names; ten hand-written single-statement IF/WHERE/FORALL forms with nested parentheses, none of which may open a scope)",
    text="All complete valid programs of <=6 (quick) / <=8 (thorough) statements over units, procedures, CONTAINS nesting, types with components/bindings, interfaces and six block constructs, plus simulated programs of up to 30 statements: each required entity exactly once with admissible kind, container and first/last line; workspace/symbol equals the substring-filtered set of units and module members, sorted.",
    note="Trusted: TLC, renderer (validated with gfortran -fsyntax-only on a sample), admissible SymbolKind sets. Don't-care: entries the property does not mention.",
    design="4/C04"),
